@@ -505,21 +505,23 @@ void w_hf_call(float& o, const halfFunction<float>& f, const half& x) { o = f(x)
         if t is not nanv: bad = 'NaN patterns store %s, expected nanValue' % T.show(t, 3)[:200]
         t = ev_cell(31, True, sign)
         if t is not (negv if sign else posv): bad = bad or '%s infinity stores %s' % ('negative' if sign else 'positive', T.show(t, 3)[:200])
-    t = ev_cell(15, False, 0)
-    if not bad:
-        lo_in, hi_in = T.inp('a1', 0, 2, 'i16'), T.inp('a2', 0, 2, 'i16')
-        def is_h2f_of(n, what):
-            return n.op == 'call' and 'imath_half_to_float' in str(n.attr) and (n.args[0] is what if what is not None else n.args[0].op == 'trunc')
-        ok = True; nf = 0
-        for lits, leaf in T.leaves(t, 64):
-            below = [v for c, v in lits if c.op == 'fcmp' and c.attr == 'olt' and is_h2f_of(c.args[0], None) and is_h2f_of(c.args[1], lo_in)]
-            above = [v for c, v in lits if c.op == 'fcmp' and c.attr == 'olt' and is_h2f_of(c.args[0], hi_in) and is_h2f_of(c.args[1], None)]
-            if leaf is dflt:
-                if not (any(below) or any(above)): ok = False
-            elif leaf.op == 'call' and 'ext_fn' in str(leaf.attr):
-                nf += 1
-                if below != [False] or above != [False]: ok = False
-            else:
-                ok = False
-        if not ok or nf != 1: bad = 'finite patterns store %s, expected (x < domainMin || x > domainMax ? defaultValue : f(x))' % T.show(t, 4)[:300]
+    finite_cells = [(E_, mz_, sg_) for sg_ in (0, 1) for (E_, mz_) in ((0, True), (0, False), (15, False), (15, True), (30, False))]
+    for (E_, mz_, sg_) in finite_cells:
+      t = ev_cell(E_, mz_, sg_)
+      if not bad:
+          lo_in, hi_in = T.inp('a1', 0, 2, 'i16'), T.inp('a2', 0, 2, 'i16')
+          def is_h2f_of(n, what):
+              return n.op == 'call' and 'imath_half_to_float' in str(n.attr) and (n.args[0] is what if what is not None else n.args[0].op == 'trunc')
+          ok = True; nf = 0
+          for lits, leaf in T.leaves(t, 64):
+              below = [v for c, v in lits if c.op == 'fcmp' and c.attr == 'olt' and is_h2f_of(c.args[0], None) and is_h2f_of(c.args[1], lo_in)]
+              above = [v for c, v in lits if c.op == 'fcmp' and c.attr == 'olt' and is_h2f_of(c.args[0], hi_in) and is_h2f_of(c.args[1], None)]
+              if leaf is dflt:
+                  if not (any(below) or any(above)): ok = False
+              elif leaf.op == 'call' and 'ext_fn' in str(leaf.attr):
+                  nf += 1
+                  if below != [False] or above != [False]: ok = False
+              else:
+                  ok = False
+          if not ok or nf != 1: bad = 'finite patterns (exponent field %d, mantissa %s, sign %d) store %s, expected (x < domainMin || x > domainMax ? defaultValue : f(x))' % (E_, 'zero' if mz_ else 'non-zero', sg_, T.show(t, 4)[:300])
     rep.ob('halfFunction::halfFunction#order', 'R03.hf', VIOLATED if bad else HOLDS, bad or 'NaN -> nanValue, +-inf -> pos/negInfValue, else outside [domainMin, domainMax] -> defaultValue, else f(x); stored at index i', where)
